@@ -12,6 +12,7 @@ import (
 	"math/rand/v2"
 	"net/http"
 	"net/http/httptest"
+	"net/url"
 	"strings"
 
 	"github.com/Query-farm/vgi-rpc-go/vgirpc"
@@ -41,7 +42,37 @@ func genValue(rng *rand.Rand) string {
 	return sb.String()
 }
 
+// Characters net/url leaves untouched in a path / query (RFC 3986 pchar minus
+// pct-encoding): the well-known URL the server derives keeps them verbatim.
+const pathChars = "abcXYZ019-._~!$&'()*+,;=:@"
+const queryChars = pathChars + "/?"
+
+func genResource(rng *rand.Rand) string {
+	if rng.IntN(3) == 0 {
+		return resources[rng.IntN(len(resources))]
+	}
+	hosts := []string{"api.example.com", "h.example:8443", "localhost:8080", "[::1]:9000", "xn--nxasmq6b.example"}
+	var sb strings.Builder
+	sb.WriteString([]string{"https://", "http://"}[rng.IntN(2)])
+	sb.WriteString(hosts[rng.IntN(len(hosts))])
+	for seg := rng.IntN(4); seg > 0; seg-- {
+		sb.WriteByte('/')
+		for n := 1 + rng.IntN(8); n > 0; n-- {
+			sb.WriteByte(pathChars[rng.IntN(len(pathChars))])
+		}
+	}
+	if rng.IntN(3) == 0 {
+		sb.WriteByte('?')
+		for n := 1 + rng.IntN(12); n > 0; n-- {
+			sb.WriteByte(queryChars[rng.IntN(len(queryChars))])
+		}
+	}
+	return sb.String()
+}
+
 var resources = []string{
+	"https://api.example.com/tenants/a,b/vgi", "https://api.example.com/x?tenants=acme,umb&client_id=1",
+	"https://h.example/a;client_id=x/b", "https://h.example/p, client_id=q",
 	"https://api.example.com", "https://api.example.com/", "https://api.example.com/vgi",
 	"https://api.example.com:8443/a/b", "http://localhost:8080", "https://h.example/client_id",
 	"https://h.example/x?client_id=1", "https://h.example/device_code_client_id/",
@@ -87,7 +118,7 @@ func main() {
 	for mask := 0; mask < 32; mask++ {
 		rng := r.Rand(uint64(mask))
 		for i := 0; i < perMask; i++ {
-			c := caseT{Resource: resources[rng.IntN(len(resources))], Mask: mask}
+			c := caseT{Resource: genResource(rng), Mask: mask}
 			if mask&1 != 0 {
 				c.ClientID = genValue(rng)
 			}
@@ -159,8 +190,14 @@ func main() {
 				}
 			}
 			// Expected resource-metadata URL: what the server itself serves the document at.
-			wantURL := expectedMetadataURL(c.Resource)
-			check("resource_metadata", vgirpc.ParseResourceMetadataURL(hdr), wantURL)
+			// The advertised URL is compared up to percent-encoding equivalence
+			// (net/url may re-escape sub-delims such as '!' when it rebuilds the
+			// path): same scheme, host, decoded path and query as the RFC 9728
+			// well-known URL of the resource, computed independently.
+			gotURL := vgirpc.ParseResourceMetadataURL(hdr)
+			if !sameURL(gotURL, expectedMetadataURL(c.Resource)) {
+				check("resource_metadata", gotURL, expectedMetadataURL(c.Resource))
+			}
 			check("client_id", vgirpc.ParseClientID(hdr), c.ClientID)
 			check("client_secret", vgirpc.ParseClientSecret(hdr), c.Secret)
 			check("device_code_client_id", vgirpc.ParseDeviceCodeClientID(hdr), c.DevID)
@@ -173,6 +210,20 @@ func main() {
 	}
 	r.SetExhaustive(false)
 	r.Set("masks_enumerated", 32)
+}
+
+// sameURL compares two URLs up to percent-encoding of the path.
+func sameURL(a, b string) bool {
+	if a == b {
+		return true
+	}
+	ua, ea := url.Parse(a)
+	ub, eb := url.Parse(b)
+	if ea != nil || eb != nil {
+		return false
+	}
+	return ua.Scheme == ub.Scheme && ua.Host == ub.Host && ua.Path == ub.Path && ua.RawQuery == ub.RawQuery &&
+		ua.Fragment == ub.Fragment && ua.User.String() == ub.User.String()
 }
 
 // expectedMetadataURL is the RFC 9728 well-known URL for a resource, computed
